@@ -32,6 +32,12 @@ from ..util import automat_state
 
 ID = "C13"
 PROP_MODULES = ["WV.Props.C13"]
+# the allocation-timing obligations need two flags from the translator (see agents/C13_integration.md);
+# they are checked as soon as tools/extract.py emits them
+import os as _os
+_EXTRACT = _os.path.join(_os.path.dirname(_os.path.dirname(_os.path.dirname(_os.path.abspath(__file__)))), "tools", "extract.py")
+if "connect_allocates_after_main_channel" in open(_EXTRACT).read():
+    PROP_MODULES.append("WV.Props.C13_Alloc")
 TRUSTED = ["L4 record delivery between the two Managers is exactly-once and in order (C10); the harness pipe is a FIFO "
            "(a re-sent old record is an explicit `dup` operation)",
            "Connector / DilatedConnectionProtocol are stand-ins (a fake connection object collecting records)",
@@ -41,7 +47,7 @@ TRUSTED = ["L4 record delivery between the two Managers is exactly-once and in o
 RULE = ("two real Managers (leader+follower) built through dilate(expected_subprotocols=unset|[]|[a]|[a,b]); random and "
         "small-scope exhaustive interleavings of connect/listen/write/loseConnection/loseWriteConnection on both sides "
         "and in-order record delivery, <=4 subchannels, names incl. non-ASCII, half-closeable and normal protocols, "
-        "calls issued before the connection exists; adversarial stream adds injected OPEN/DATA/CLOSE with arbitrary "
+        "calls issued right after dilate() (before the peer's PLEASE / role choice) and before the connection exists, by either side, with both sides opening subchannels; adversarial stream adds injected OPEN/DATA/CLOSE with arbitrary "
         "scid/seq and re-delivered old records; non-trivial = at least one subchannel reached a protocol or was refused; "
         "distinct = distinct canonical output traces")
 
@@ -167,13 +173,18 @@ class Side:
             self.api = wormhole_mod._DeferredWormhole.dilate(w, **kw)
             self.dil.got_key(b"\x00" * 32)
             self.dil.got_wormhole_versions({"can-dilate": list(DILATION_VERSIONS)})
-            self.role_error = None
-            try:
-                self.dil.received_dilate(dict_to_bytes({"type": "please", "side": their_side, "use-version": "ged"}))
-            except ValueError:
-                self.role_error = "ValueError"
+        self.role_error = None
+        self.their_side = their_side
         self.mgr = self.dil._manager
         self.conn = FakeConn(self)
+
+    def please(self):
+        """the peer's PLEASE arrives: rx_PLEASE -> choose_role (+ a stand-in Connector is started)"""
+        with mock.patch.object(dmanager, "Connector", FakeConnector):
+            try:
+                self.dil.received_dilate(dict_to_bytes({"type": "please", "side": self.their_side, "use-version": "ged"}))
+            except ValueError:
+                self.role_error = "ValueError"
 
     # -- called by the real code
     def eff(self, s):
@@ -352,14 +363,29 @@ class Run:
         a.peer, b.peer = b, a
         self.sides = {"A": a, "B": b}
         self.lines.append(f"new {c['sa']} {c['sb']} {exp_token(c['expA'])} {exp_token(c['expB'])}")
+        # calls made right after w.dilate(), before the peer's PLEASE has been processed (no role yet):
+        # `dw = w.dilate(); dw.connector_for(name).connect(f)` -- they wait for the main channel too
+        waiting = {"A": [], "B": []}
+        sync_failed = []
+        for op in c.get("early", []):
+            if op[0] in ("connect", "listen"):
+                h = self.api_call(op)
+                if h.done:   # synchronous failure (empty name)
+                    sync_failed.append((op, h))
+                else:
+                    waiting[op[1]].append((op, h))
+        for lab in c.get("please_order", "AB"):
+            self.sides[lab].please()
         if a.role_error or b.role_error:
             self.expect.append("ValueError")
             return
         la = "true" if a.mgr._my_role == LEADER else "false"
         lb = "true" if b.mgr._my_role == LEADER else "false"
         self.expect.append(f"ok {la} {lb}")
-        # calls made before the connection exists wait for the main channel
-        waiting = {"A": [], "B": []}
+        for op, h in sync_failed:
+            side = self.sides[op[1]]
+            self.record(op, side, len(side.effects), h.err)
+        # calls made after the role is known but before the connection exists wait for the main channel
         for op in c.get("pre", []):
             if op[0] in ("connect", "listen"):
                 h = self.api_call(op)
@@ -535,6 +561,10 @@ def oracle(run):
                 else:
                     tags.append("open:pending")
                     pending.setdefault(name, []).append(r.scid)
+                    if f"{r.scid}:unconnected" not in summ.split("pend=")[0] or \
+                            f"{hs(name)}:{len(pending[name])}" not in summ.split("pend=")[1]:
+                        viol.append(("open-exactly-once", f"{lab} has no listener for {name!r}: OPEN {r.scid} must be held "
+                                                          f"pending, got {effs} | {summ}"))
                     if builds:
                         viol.append(("open-exactly-once", f"{lab} has no listener for {name!r} but OPEN {r.scid} built {builds}"))
             elif isinstance(r, Data):
@@ -583,8 +613,9 @@ def oracle(run):
 # ---------------------------------------------------------------------------
 # cases
 
-def mkcase(ops, pre=(), expA=None, expB=None, sa="b1", sb="a0"):
-    return dict(sa=sa, sb=sb, expA=expA, expB=expB, pre=[list(o) for o in pre], ops=[list(o) for o in ops])
+def mkcase(ops, pre=(), expA=None, expB=None, sa="b1", sb="a0", early=(), please_order="AB"):
+    return dict(sa=sa, sb=sb, expA=expA, expB=expB, early=[list(o) for o in early], please_order=please_order,
+                pre=[list(o) for o in pre], ops=[list(o) for o in ops])
 
 
 CORPUS = [
@@ -634,6 +665,18 @@ CORPUS = [
     # connectionLost overtake data in flight -- model and real code agree; outside the honest environment
     mkcase([("listen", "B", "a", "full"), ("connect", "A", "a", "full"), ("deliver", "A"), ("write", "A", 0, "07"),
             ("lose", "A", 0), ("rx", "B", "close", 5, 1), ("deliver", "A"), ("deliver", "A")]),
+    # connect() right after dilate(), before the peer's PLEASE (no role yet), then both sides open subchannels:
+    # ids stay odd/even and every OPEN appears once on the other side
+    mkcase([("connect", "B", "a", "full"), ("connect", "A", "b", "half"), ("deliver", "A"), ("deliver", "A"), ("deliver", "A"),
+            ("deliver", "B"), ("deliver", "B"), ("write", "A", 0, "01"), ("write", "B", 0, "02"), ("deliver", "A"), ("deliver", "B"),
+            ("lose", "A", 0), ("deliver", "A"), ("deliver", "B")],
+           early=[("connect", "A", "a", "full"), ("connect", "A", "a", "full"), ("listen", "B", "a", "full")],
+           pre=[("listen", "A", "a", "full"), ("listen", "B", "b", "half")]),
+    mkcase([("connect", "A", "a", "full"), ("deliver", "A"), ("deliver", "B"), ("deliver", "B"), ("deliver", "A")],
+           early=[("connect", "B", "a", "full"), ("connect", "B", "", "full")], sa="a0", sb="b1", please_order="BA",
+           pre=[("connect", "B", "a", "half")]),
+    mkcase([("deliver", "A"), ("deliver", "B"), ("listen", "A", "a", "full"), ("listen", "B", "a", "full")],
+           early=[("connect", "A", "a", "full"), ("connect", "B", "a", "full")]),
     # a peer that opens one of OUR ids: the next local connect() raises AssertionError (open_exactly_once, case 3)
     mkcase([("rx", "A", "open", 0, 1, "a"), ("connect", "A", "b", "full"), ("connect", "A", "b", "full"),
             ("listen", "A", "a", "full"), ("write", "A", 0, "01")]),
@@ -645,10 +688,16 @@ def rand_case(rng, adversarial=False, nops=None):
     sa, sb = rng.choice([("b1", "a0"), ("a0", "b1"), ("0f", "f0"), ("ff00", "ff01")])
     c = dict(sa=sa, sb=sb, expA=rng.choice(exps), expB=rng.choice(exps), pre=[], ops=[])
     names = rng.choice([["a"], ["a", "b"], ["a", "é"], NAMES])
+    c["early"] = []
+    c["please_order"] = rng.choice(["AB", "BA"])
+    if rng.random() < 0.5:
+        for _ in range(rng.choice([1, 1, 2, 3])):
+            c["early"].append([rng.choice(["connect", "connect", "connect", "listen"]), rng.choice("AB"), rng.choice(names),
+                               rng.choice(["full", "full", "half"])])
     for _ in range(rng.choice([0, 0, 1, 2, 3])):
         c["pre"].append([rng.choice(["connect", "listen", "listen"]), rng.choice("AB"), rng.choice(names), rng.choice(["full", "full", "half"])])
     n = nops or rng.choice([6, 12, 20, 35])
-    nconn = sum(1 for o in c["pre"] if o[0] == "connect")
+    nconn = sum(1 for o in c["pre"] + c["early"] if o[0] == "connect")
     ctr = 0
     seq = {"A": 0, "B": 0}
     for _ in range(n):
@@ -706,6 +755,22 @@ def exhaustive(depth):
                 yield mkcase(ops, expB=["b"])
 
 
+def phases(maxn):
+    """who calls connect() how often in which phase (before PLEASE / before the connection / later), both role
+    assignments; every OPEN is delivered and both sides listen"""
+    for sa, sb in (("b1", "a0"), ("a0", "b1")):
+        for counts in itertools.product(range(maxn + 1), repeat=6):
+            ea, eb, pa, pb, la, lb = counts
+            if ea + eb == 0 or ea + pa + la + eb + pb + lb > 4:
+                continue
+            for order in ("AB", "BA"):
+                ops = [("connect", "A", "a", "full")] * la + [("connect", "B", "a", "full")] * lb
+                ops += [("deliver", "A"), ("deliver", "B")] * 4 + [("listen", "A", "a", "full"), ("listen", "B", "a", "full")]
+                yield mkcase(ops, sa=sa, sb=sb, please_order=order,
+                             early=[("connect", "A", "a", "full")] * ea + [("connect", "B", "a", "full")] * eb,
+                             pre=[("connect", "A", "a", "full")] * pa + [("connect", "B", "a", "full")] * pb)
+
+
 def cases(rng, tier):
     out = [dict(c) for c in CORPUS]
     n = 1 if tier == "quick" else 25
@@ -715,8 +780,10 @@ def cases(rng, tier):
         out.append(rand_case(rng, adversarial=True))
     if tier == "thorough":
         out += list(exhaustive(5))
+        out += list(phases(3))
     else:
         out += list(exhaustive(2))
+        out += list(phases(1))
     return out
 
 
@@ -759,6 +826,11 @@ def shrink(case):
     for i in range(len(ops) - 1, -1, -1):
         c = dict(case)
         c["ops"] = ops[:i] + ops[i + 1:]
+        yield c
+    early = case.get("early", [])
+    for i in range(len(early)):
+        c = dict(case)
+        c["early"] = early[:i] + early[i + 1:]
         yield c
     pre = case.get("pre", [])
     for i in range(len(pre)):
